@@ -2,14 +2,15 @@ SPECIFICATION Spec
 CONSTANTS
   GseLenMax = 4095
   TotalLenMax = 65535
-  MaxPdus = 3
+  MaxPdus = 2
   FragIds = {0, 1}
   Slots = 2
   QLen = 2
   Loss = TRUE
-  Dup = FALSE
+  Dup = TRUE
   Maxes = {1}
   Export = FALSE
   Depth = 0
-INVARIANTS AttributionUnderLoss
+CONSTRAINT Bounded
+INVARIANTS OnlySent FragAtMostOnce
 CHECK_DEADLOCK FALSE
